@@ -269,6 +269,11 @@ def check_traj_split(ctx):
             if isinstance(b_, ast.For) and any(isinstance(w, ast.Assign) and any(isinstance(t, ast.Name) and t.id == 'minsize' for t in w.targets) for w in ast.walk(b_)):
                 names |= {x.id for x in ast.walk(b_.iter) if isinstance(x, ast.Name)}
         derived = bool(names & {norm_text(g.iter.args[0]), 'subtrajectories'}) or lens
+        has_min = any(isinstance(w, ast.Call) and norm_text(w.func).split('.')[-1] in ('min', 'amin') for b_ in blk.body for w in ast.walk(b_))
+        if derived and not has_min:
+            ctx.ob('R4', fi, 'minsize', False, 'the trim length is the size of one particular part, not the minimum over all parts: when another part is '
+                                               'shorter the "equal" parts have unequal lengths')
+            continue
         ctx.ob('R4', fi, 'minsize', derived, 'trim length = size of the smallest actual part' if derived else
                'the trim length is computed from len(self) and n_parts only, not from the actual frame ranges: the parts cut from the edge '
                'sequence can be shorter, so "equal parts" come out with unequal lengths')
